@@ -61,6 +61,10 @@ def gen_cases(rng, tier: str) -> list[dict]:
             c = common.make_eval_case(origin, e, pt)
             c["entry"] = "number" if len(e._variable_names) <= 1 and rng.random() < 0.3 else "point"
             cases.append(c)
+    for e, pt in common.int_exact(rng, common.sizes(tier, 60, 600)):
+        # not through make_eval_case: the point of these is that leaves and coordinates stay Python ints
+        cases.append({"origin": "int-exact", "e": wire.expr(e, ids={}), "p": wire.point(pt), "int_exact": True,
+                      "entry": "number" if len(e._variable_names) == 1 and rng.random() < 0.3 else "point"})
     return cases + k3_points(tier)
 
 
